@@ -31,7 +31,7 @@ def make_cases(run):
     quick = run.tier == "quick"
     cases = []
     cdir = os.path.join(C.VERIF, "corpus", "c19")
-    for n in sorted(os.listdir(cdir)) if os.path.isdir(cdir) else []:
+    for n in sorted(n for n in os.listdir(cdir) if n.endswith(".case")) if os.path.isdir(cdir) else []:
         ls = [l.rstrip("\n").replace("{REPO}", C.REPO) for l in open(os.path.join(cdir, n)) if l.strip() and not l.startswith("#")]
         cases.append(("corpus:" + n, ls, "corpus"))
     two = "src synthetic pack:2 [numa(memory=1024)] core:2 pu:2"
@@ -124,6 +124,8 @@ def findings_of(r, expect, cfg_lines):
             out.append(("get_length-fails", l, False))
         elif l.startswith("len DIFF"):
             out.append(("correspondence:get_length", "model get_length differs from hwloc_shmem_topology_get_length: " + l, True))
+        elif l.startswith("fits NO"):
+            out.append(("length-too-short", "the topology written after the refresh needs more than get_length returned: " + l, False))
         elif l.startswith("used DIFF"):
             out.append(("correspondence:used", l, True))
         elif l.startswith("write ") and "rc=0" not in l:
@@ -214,5 +216,5 @@ def check(run, replay=None):
     run.assumptions += [
         "the calls on an adopted copy are modelled as a table (guard / region written), tied to the code by running every call on a really adopted, PROT_READ-mapped copy; the table is not derived from the function bodies",
         "hwloc_shmem_topology_write refreshes the source topology before duplicating it: length_suffices is stated for the tree that is written; that the refresh does not add blocks after get_length is checked on the executed cases (file tail, PROT_NONE page), not proved",
-        "hwloc_obj_add_info / object userdata have no topology argument and cannot be refused: documented as forbidden on adopted topologies (shmem.h)"]
+        "hwloc_obj_add_info / object userdata have no topology argument and cannot be refused: documented as forbidden on adopted topologies (shmem.h); kept as a known finding and as the witness of adopted_modifiers_eperm_refuted"]
     return run.finish(proof, trusted=["harness/hwv_shmem.c (fork/mmap protocol, file checksums), harness/hwv_ptree.h", "ocaml/drv_c19.ml, ocaml/hvdump.ml (parsers)"])
